@@ -11,7 +11,9 @@ ANCHOR_PREFIXES = ["transform::process_tags", "transform::", "context::", "eleme
                    "element::SvgElement::resolve_position", "position::", "connector::"]
 BOUNDS = ("reference DAGs over 2-4 id'd sibling elements built from {absolute rect/circle, |h |V placement, @loc placement, relative size, scalar reference, {{#id~scalar}} expression references, group with relatively positioned content, dw/dh-adjusted target, surround of 1-2, inside of 2, use, "
           "line and polyline connectors, elements with absolute compound geometry held back by a non-geometry attribute (data attribute, text, rx), relatively placed path, polyline with referenced points, "
-          "group clipped by a clip path that follows the parent, clip path as a node of its own with a group clipped by it}; every one of the n! sibling orders; size spelled wh or width/height, position spelled xy or x/y; positions k/2 in [-256,256], sizes integers in [0,64], "
+          "group clipped by a clip path that follows the parent, clip path as a node of its own with a group clipped by it, and a seeded sample (quick 300, thorough 4000 DAGs x 3-4 orders) over the systematic unary kinds "
+          "shape {rect, circle, ellipse, box, point} x position form {|h |H |v |V, @loc, cxy@loc, xy-loc, edge, ~scalar on x/y, on x2/y2, on cx/cy, {{expression}}} x size form {wh, longhand, relative, dw/dh, r, rxy, rx+ry} x held-back-or-not, "
+          "surround / inside containers of each shape, path data and phantom points referring to the parent}; every one of the n! sibling orders (sampled for the systematic kinds); size spelled wh or width/height, position spelled xy or x/y; positions k/2 in [-256,256], sizes integers in [0,64], "
           "gaps k/2 in [-16,16]; connector templates: the paths reached from the seeded valuations (no exhaustive negation); '^' excluded as the property says")
 ASSUMPTIONS = ["the dependency-ordered document (every element after the elements it refers to) defines the expected geometry; both documents run in one engine session over the same variables",
                "unsatisfiable references (unknown id, cycle, target without bounding box) are ground queries: no symbolic quantity involved"]
@@ -21,10 +23,51 @@ SZ = (0, 64, 0)
 GP = (-16, 16, 1)
 
 
+# ---- systematic unary node kinds: "N:<shape>:<position form>:<size form>[:held]" (one parent) and containers "S:<shape>:<n>" / "I:<shape>:<n>"
+NSHAPES = ["rect", "circle", "ellipse", "box", "point"]
+NPOS = ["dirh", "dirH", "dirv", "dirV", "loc", "cloc", "xyloc", "edge", "scalar", "scalar2", "ccs", "expr"]
+NSIZE = {"rect": ["wh", "long", "rel", "dw"], "box": ["wh", "long"], "circle": ["r", "wh1"], "ellipse": ["rxy", "rxry", "wh"], "point": ["none"]}
+
+
+def nkinds():
+    out = []
+    for shp in NSHAPES:
+        for pf in NPOS:
+            if shp == "point" and pf in ("cloc", "xyloc", "scalar2", "ccs"):
+                continue
+            for sf in NSIZE[shp]:
+                out.append(f"N:{shp}:{pf}:{sf}")
+    for shp in ("rect", "circle", "ellipse"):
+        out += [f"S:{shp}:1", f"I:{shp}:1"]
+    out += ["PD", "PT2"]
+    return out
+
+
+def nnode(kind, id_, p, a):
+    _, shp, pf, sf = kind.split(":")[:4]
+    pos = {"dirh": f'xy="{p}|h {a[0]}"', "dirH": f'xy="{p}|H {a[0]}"', "dirv": f'xy="{p}|v {a[0]}"', "dirV": f'xy="{p}|V {a[0]}"', "loc": f'xy="{p}@br {a[0]} {a[1]}"',
+           "cloc": f'cxy="{p}@c {a[0]}"', "xyloc": f'xy="{p}@r {a[0]}" xy-loc="l"', "edge": f'xy="{p}@b:25% {a[0]}"', "scalar": f'x="{p}~x2" y="{p}~cy {a[0]}"',
+           "scalar2": f'x2="{p}~x1" y2="{p}@b {a[0]} {a[1]}"', "ccs": f'cx="{p}~cx {a[0]}" cy="{p}@t"', "expr": f'x="{{{{{p}~x2 + {a[0]}}}}}" y="{{{{{p}~y}}}}"'}[pf]
+    size = {"wh": f'wh="{a[2]} {a[3]}"', "long": f'width="{a[2]}" height="{a[3]}"', "rel": f'wh="{p} 50%"', "dw": f'width="{a[2]}" height="{a[3]}" dw="{a[4]}" dh="1"',
+            "r": f'r="{a[2]}"', "wh1": f'wh="{a[2]}"', "rxy": f'rxy="{a[2]} {a[3]}"', "rxry": f'rx="{a[2]}" ry="{a[3]}"', "none": ""}[sf]
+    held = ' data-h="{{%s~h}}"' % p if kind.endswith(":held") else ""
+    return f'<{shp} id="{id_}" {pos} {size}{held}/>', [(2, *GP), (-3, *GP), (6, *SZ), (8, *SZ), (3, 0, 16, 0)]
+
+
 def node(kind, id_, parents, k0, sp):
     """returns (markup, varspecs).  sp: spelling dict(size='wh'|'long', pos='xy'|'long')"""
     a = [f"[[{k0 + j}]]" for j in range(6)]
     p = ["#" + x for x in parents]
+    if kind.startswith("N:"):
+        return nnode(kind, id_, p[0], a)
+    if kind.startswith(("S:", "I:")):
+        what, shp, n = kind.split(":")
+        attr = "surround" if what == "S" else "inside"
+        return f'<{shp} id="{id_}" {attr}="{" ".join(p)}" margin="{a[0]}"/>', [(2, 0, 8, 1)]
+    if kind == "PD":     # path whose data refers to the parent
+        return f'<path id="{id_}" d="M {p[0]}@tl L {p[0]}@r l {a[0]} {a[1]}"/>', [(2, *GP), (-3, *GP)]
+    if kind == "PT2":    # phantom point on the parent, nothing rendered
+        return f'<point id="{id_}" xy="{p[0]}@br {a[0]}"/>', [(2, *GP)]
 
     def size(w, h):
         return f'wh="{w} {h}"' if sp["size"] == "wh" else f'width="{w}" height="{h}"'
@@ -156,11 +199,35 @@ def templates(tier, seed):
     for si in (0, 2):
         for perm in itertools.permutations(range(4)):
             tds.append(dict(fam="order", shape="g-and-sibling", kinds=["R", "R", "G", "S2"], sp=si, perm=list(perm)))
+    # systematic node kinds: chains / fans whose inner nodes are drawn from the product shape x position form x size form
+    rs = random.Random(4242 + seed)
+    NK = nkinds()
+    NU = [k for k in NK]
+    sysn = []
+    for i in range(300 if tier == "quick" else 4000):
+        shape = rs.choice(["chain3", "chain3", "chain4", "fan3", "mixed4"])
+        par = SHAPES[shape]
+        kinds = []
+        for j, pj in enumerate(par):
+            if len(pj) == 0:
+                kinds.append(rs.choice(N0))
+            elif len(pj) == 1:
+                k = rs.choice(NU)
+                if k.startswith("N:") and rs.random() < 0.25:
+                    k += ":held"
+                kinds.append(k)
+            else:
+                kinds.append(rs.choice(["S2", "I2", f"S:{rs.choice(['rect', 'circle', 'ellipse'])}:2", f"I:{rs.choice(['rect', 'ellipse'])}:2"]))
+        n = len(par)
+        perms = [pp for pp in itertools.permutations(range(n)) if list(pp) != list(range(n))]
+        for perm in rs.sample(perms, min(len(perms), 3 if n == 3 else 4)):
+            sysn.append(dict(fam="order", shape=shape, kinds=kinds, sp=0, perm=list(perm), sysn=True))
+    tds += sysn
     for bad in ("unknown-id", "cycle2", "cycle3", "self", "no-bbox", "unknown-surround", "unknown-connector", "cycle-size"):
         tds.append(dict(fam="unsat", case=bad))
     if tier == "quick":
-        keep = [t for t in tds if t["fam"] == "unsat" or t.get("kinds") in (["R", "H", "S1"], ["R", "T", "H"], ["R", "Tc", "L"], ["R", "Tx", "H"], ["R", "PA", "H"], ["R", "PA", "S1"], ["C", "LC", "H"], ["R", "CP", "GC"], ["R", "CP", "GC", "S1"], ["R", "CP", "GC", "H"], ["R", "CG", "H"], ["R", "CG", "S1"], ["R", "T", "S1"], ["R", "PL", "S1"], ["R", "Hd", "EZ"], ["C", "L", "EZ"], ["R", "Hd", "E"], ["R", "G", "S1"], ["C", "Hd", "ER"], ["R", "G", "E"], ["R", "R", "G", "S2"])]
-        rest = [t for t in tds if t not in keep]
+        keep = [t for t in tds if t["fam"] == "unsat" or t.get("sysn") or t.get("kinds") in (["R", "H", "S1"], ["R", "T", "H"], ["R", "Tc", "L"], ["R", "Tx", "H"], ["R", "PA", "H"], ["R", "PA", "S1"], ["C", "LC", "H"], ["R", "CP", "GC"], ["R", "CP", "GC", "S1"], ["R", "CP", "GC", "H"], ["R", "CG", "H"], ["R", "CG", "S1"], ["R", "T", "S1"], ["R", "PL", "S1"], ["R", "Hd", "EZ"], ["C", "L", "EZ"], ["R", "Hd", "E"], ["R", "G", "S1"], ["C", "Hd", "ER"], ["R", "G", "E"], ["R", "R", "G", "S2"])]
+        rest = [t for t in tds if t not in keep and not t.get("sysn")]
         tds = keep + sample_quota(rest, lambda t: (t["shape"],), {"pair": 20, "chain3": 50, "fan3": 40, "join3": 40, "chain4": 30, "diamond4": 30, "join-then4": 30, "mixed4": 30, "g-and-sibling": 0}, seed)
     return tds
 
@@ -235,9 +302,12 @@ def build(td, wrong=False):
         o1, o2 = Out(d1["output"]), Out(d2["output"])
         obls = []
         seq = [e.get("id") for e in o1.all if e.get("id") in ids]
-        obls.append(Obl("output-follows-document-order", PASS if seq == [ids[i] for i in perm] else FAIL, ground=True, note=str(seq)))
+        rendered = [i for i in ids if o2.by_id(i) is not None]       # (phantom elements - box, point - are rendered in neither document)
+        obls.append(Obl("output-follows-document-order", PASS if seq == [ids[i] for i in perm if ids[i] in rendered] else FAIL, ground=True, note=str(seq)))
         for id_ in ids:
             e1, e2 = o1.by_id(id_), o2.by_id(id_)
+            if e1 is None and e2 is None:
+                continue
             if e1 is None or e2 is None:
                 obls.append(Obl(f"{id_}-present", FAIL, ground=True))
                 continue
